@@ -385,3 +385,9 @@ REGISTRY["C17"]["theorems"] += T("Proofs.C17c", "BLDFM.C17", ["size_facts", "G2_
 REGISTRY["C17"]["partial_clauses"] = ["float rounding only: BOTH accuracy clauses are theorems over exact arithmetic on the model's own sphere (R = 6371000 m): local distance within "
                                       "0.1 % of the haversine distance (equirect_distance_accuracy) and local bearing within 0.1 degree of the initial great-circle bearing "
                                       "(equirect_bearing_accuracy), for |ref lat| <= 60 deg and local distance <= 5000 m; 'a few kilometres' is read as 5 km, 'non-polar' as 60 deg"]
+
+# C19 mass clause, finite upwind extent: exact incomplete-gamma mass of the continuous crosswind-integrated footprint
+REGISTRY["C19"]["theorems"] += T("Proofs.C19d", "BLDFM.C19", ["km_crosswind_integrated_extent", "km_mass_within_extent", "gammaQ_zero"])
+REGISTRY["C19"]["partial_clauses"][0] = ("the continuous crosswind-integrated footprint has EXACTLY the regularised incomplete-gamma mass Q(mu, xi/X) within the upwind extent X "
+    "(km_mass_within_extent; the upper incomplete gamma function is written as its defining integral because Mathlib has none), unit mass over the half line and a unit-mass "
+    "crosswind Gaussian; that the GRID SUM tends to this integral as the grid is refined (Riemann-sum convergence) is a numeric oracle only (scipy.special.gammaincc)")
